@@ -1,9 +1,10 @@
 #!/bin/bash
 # Builds the framework offline from files on disk (harness binaries + coca CLI) to warm the build cache.
 export GOFLAGS=-mod=mod GOPROXY=off GOSUMDB=off GOTOOLCHAIN=local
-cd /verif/harness || exit 1
-mkdir -p /verif/bin /verif/evidence
+ROOT="$(cd "$(dirname "${BASH_SOURCE[0]}")" && pwd)"
+cd "$ROOT/harness" || exit 1
+mkdir -p "$ROOT/bin" "$ROOT/evidence"
 cp /repo/go.sum go.sum
-go build -tags verif -o /verif/bin/ ./cmd/... || exit 1
-(cd /repo && go build -tags verif -o /verif/bin/coca . ) || exit 1
+go build -tags verif -o "$ROOT/bin/" ./cmd/... || exit 1
+(cd /repo && go build -tags verif -o "$ROOT/bin/coca" . ) || exit 1
 echo setup ok
